@@ -59,13 +59,13 @@ Proof.
 Qed.
 Print Assumptions C05_simple_refuted_one_flip.
 
-(* WrrSimple, guarded (bounded, by complete enumeration): for every list of 1..3 backends with weights in
-   {0,100,200}, current in {0,1,100}, any availability, no concurrent change, every start position, the call
-   returns within 2*len+1 probes.  (The unbounded statement for weights >= 0 is not proved.) *)
-Theorem C05_simple_partial : forall bs k,
-  In bs small_lists -> (k < length bs)%nat ->
-  is_returned (snd (simple (2 * length bs + 1) (bs, []) (Z.of_nat k))) = true.
-Proof. exact simple_partial_bounded. Qed.
+(* WrrSimple, guarded: on every non-empty list whose weights are all >= 0 (any credits, any availability, every
+   brr.next in range) and without concurrent change the call returns a backend or "all backend is down" within
+   2*len+1 probes.  The guard excludes exactly the three refuted classes: empty list, a negative weight, a mid-call flip. *)
+Theorem C05_simple_partial : forall bs next,
+  (forall b, In b bs -> 0 <= bw b) -> 0 <= next < Z.of_nat (length bs) ->
+  is_returned (snd (simple (2 * length bs + 1) (bs, []) next)) = true.
+Proof. exact simple_static_total. Qed.
 Print Assumptions C05_simple_partial.
 
 (* Wire level: for every input (initial conf + history of Balance / SetAvail / conn change / Update, with scripts)
@@ -80,9 +80,10 @@ Example C05_ex_smooth :
   snd (smooth [0%nat; 1%nat] ([mkBe 1 100 100 true 0; mkBe 2 200 200 true 0], [[(2, 0, 0)]])) = ROk [1]
   /\ snd (smooth [0%nat; 1%nat] ([mkBe 1 100 100 true 0; mkBe 2 200 200 true 0], [])) = ROk [2].
 Proof. exact ex_smooth_flip. Qed.
-(* the enumerated domain of C05_simple_partial: 18 + 18^2 + 18^3 lists *)
-Example C05_ex_small : Z.of_nat (length small_lists) = 6174.
-Proof. exact ex_small_lists. Qed.
+(* C05_simple_partial applies to the one-flip witness list without its flip: it returns backend 1 *)
+Example C05_ex_partial :
+  (forall b, In b (fst flip_witness) -> 0 <= bw b) /\ snd (simple 5 (fst flip_witness, []) 0) = ROk [1].
+Proof. exact ex_partial. Qed.
 (* a well-formed history outside the finding classes (SetAvail, WrrSimple with a mid-scan flip, WrrSmooth) *)
 Example C05_ex_wire :
   let i := VL [VL [VL [VZ 1; VZ 1]; VL [VZ 2; VZ 2]];
